@@ -39,6 +39,7 @@ from z3 import (
     If,
     Not,
     Select,
+    SignExt,
     Solver,
     Store,
     ZeroExt,
@@ -2040,7 +2041,10 @@ class GenericStorage(Storage):
         res = con(0, bitsize)
         for x in args:
             if x.size() < bitsize:
-                x = simplify(ZeroExt(bitsize - x.size(), x))
+                # a constant just below 2**size is a negative offset, e.g. the -1 of `(keccak(slot) - 1) + n`
+                is_neg = is_bv_value(x) and x.as_long() >= 2 ** x.size() - 2**64
+                ext = SignExt if is_neg else ZeroExt
+                x = simplify(ext(bitsize - x.size(), x))
             res += x
         return simplify(res)
 
